@@ -57,6 +57,21 @@ def handle (args : List String) : String :=
       | .fuel => "fuel"
   | [] => "bad-op"
 
+def hex32 (v : BitVec 32) : String :=
+  let s := String.ofList (Nat.toDigits 16 v.toNat)
+  "".pushn '0' (8 - s.length) ++ s
+
+/-- `expr32 <noPostfix 0/1> tok tok ...` : the int overload -/
+def handle32 (args : List String) : String :=
+  match args with
+  | flag :: toks =>
+      match eval32 (toks.map (tokOfString (flag == "1"))) with
+      | .ok (v, _) => "ok " ++ hex32 v
+      | .err => "err"
+      | .fault => "fault"
+      | .fuel => "fuel"
+  | [] => "bad-op"
+
 /-- `lit <noPostfix 0/1> <word>` : literal conversion alone -/
 def handleLit (args : List String) : String :=
   match args with
